@@ -14,7 +14,7 @@ use std::collections::HashSet;
 fn full_model(two: bool) -> Model {
     let mut m = model_with_meta(
         Meta {
-            name: "Proyecto \"ñ\" €".into(),
+            name: "Proyecto \"ñ\" € 𝜆=0.034 🏠".into(),
             is_new_building: false,
             is_dwelling: false,
             num_dwellings: 7,
